@@ -27,9 +27,9 @@ def height(s, level):
     return level
 
 
-def reply(ver, rid, status, s, key=KEY, alg=1, with_status=True, extra=b""):
-    body = tlv(0x01, be(rid)) + (tlv(0x04, be(status)) if with_status else b"") + (tlv(0x05, b"no\x00") if status else b"")
-    body += (s.body() if s is not None else b"") + extra
+def reply(ver, rid, status, s, key=KEY, alg=1, with_status=True, extra=b"", with_msg=True, upper_first=False):
+    body = tlv(0x01, be(rid)) + (tlv(0x04, be(status)) if with_status else b"") + (tlv(0x05, b"no\x00") if status and with_msg else b"")
+    body += (s.body(list(reversed(s.chains)) if upper_first else None) if s is not None else b"") + extra
     if ver == 2:
         return pdu.pdu_v2(0x221, tlv(0x02, body), alg, key)
     return pdu.pdu_v1(0x200, tlv(0x202, body), alg, key)
@@ -62,6 +62,8 @@ def gen(rng, tier):
         st = rng.choice([0x101, 0x102, 0x103, 0x104, 0x105, 0x106, 0x107, 0x200, 0x300, 0x301, 5, 1 << 40])
         yield line(h, level, ver, R(status=st), "status-not-zero")
         yield line(h, level, ver, R(s=None, status=st), "status-not-zero")
+        yield line(h, level, ver, R(status=st, with_msg=False), "status-not-zero")             # complete chains, no error message
+        yield line(h, level, ver, R(upper_first=True), "ok")                                    # the order of the chains in the reply is free
         yield line(h, level, ver, R(s=None), "no-chains")
         yield line(h, level, ver, R(with_status=False), "status-absent")
         other = bytearray(h); other[rng.randrange(1, len(other))] ^= 1 << rng.randrange(8)
@@ -71,6 +73,7 @@ def gen(rng, tier):
         if level != 0 or rng.random() < 0.5:
             ol = rng.choice([x for x in (0, 1, level + 1, max(level - 1, 0)) if x != level])
             yield line(h, level, ver, R(s=aggregate(rng, h, ol)), "chains-computed-for-another-level")
+            yield line(h, level, ver, R(s=aggregate(rng, h, ol, nchains=rng.choice([2, 3])), upper_first=True), "chains-computed-for-another-level")
         # internally inconsistent chains
         bad = good.clone()
         k = rng.randrange(len(bad.chains)); l = rng.choice(bad.chains[k].links)
@@ -110,6 +113,13 @@ def gen(rng, tier):
             yield aline(A(key=b"someone else"), "mac-does-not-verify")
             if level != 0:
                 yield aline(A(s=aggregate(rng, h, 0)), "chains-computed-for-another-level")
+            # the handle that came back is used again: what the server answers to the second request (id 2) decides
+            a2 = lambda rep2, label: "as2 %s %d %s %s %s %s" % (hx(h), level, hx(KEY), hx(A()), hx(rep2), label)   # noqa: E731
+            yield a2(A(rid=2), "ok")
+            yield a2(A(rid=2, status=0x101), "status-not-zero")
+            yield a2(A(rid=2, s=aggregate(rng, bytes(other), level)), "chains-for-another-hash")
+            yield a2(pdu.err_pdu(0x03, 0x102), "error-pdu")
+            yield a2(A(rid=2, key=b"someone else"), "mac-does-not-verify")
         # the request
         login = rng.choice([b"anon", b"u", b"user-with-a-long-name-%d" % rng.randrange(1000), bytes(range(0x41, 0x41 + 40))])
         yield "q %s %d %d %s %s request" % (hx(h), level, ver, hx(login), hx(KEY))
